@@ -304,6 +304,9 @@ def stepLine (s : St) (line : String) : St × String :=
           let t : TRing Int := TRing.mk' 0 k
           (.typed t ((words line).getD 1 "" == "tchar"), "- " ++ typedState t)
       | none => (s, "bad-op")
+  | ["reset", "tempty"] =>
+      let t : TRing Int := TRing.empty
+      (.typed t false, "- " ++ typedState t)
   | ["reset", "cyc", n] =>
       match n.toNat? with
       | some k => let c : Cyclic Int := Cyclic.mk' 0 k; (.cyc c, s!"- {c.counter.counter} {c.fill}")
